@@ -195,7 +195,15 @@ func (s *vSession) opWrite(n int, typ MessageType) {
 		vAssert(err == nil, "Gen.write.succeeds-while-open")
 		s.exp = append(s.exp, vSessOut{kind: 'm', typ: typ, payload: keep})
 	} else {
-		vAssert(err != nil, "Gen.after.write-fails")
+		if s.lenient && !s.closedByCall {
+			// after a protocol violation the library need not have sent a Close frame nor closed the connection: a write
+			// that still succeeds is judged on the wire (nothing behind a Close frame)
+			if err == nil {
+				s.intruded = true
+			}
+		} else {
+			vAssert(err != nil, "Gen.after.write-fails")
+		}
 		// it may have waited, up to its own deadline, for a message lock that a failed write keeps
 		s.budget += time.Second
 	}
@@ -233,7 +241,13 @@ func (s *vSession) opStream(la, lb int) {
 		vAssert(!failed, "Gen.stream.succeeds-while-open")
 		s.exp = append(s.exp, vSessOut{kind: 'm', typ: MessageText, payload: append(append([]byte{}, a...), b...)})
 	} else {
-		vAssert(failed, "Gen.after.writer-fails")
+		if s.lenient && !s.closedByCall {
+			if !failed {
+				s.intruded = true
+			}
+		} else {
+			vAssert(failed, "Gen.after.writer-fails")
+		}
 		s.budget += time.Second
 	}
 }
@@ -372,6 +386,19 @@ func (s *vSession) checkWire() {
 			}
 		default:
 			vAssert(false, "Gen.wire.opcode")
+		}
+	}
+	// C16, independent of the model: behind the first Close frame no data message and no second Close frame
+	seenClose := false
+	for _, a := range act {
+		if seenClose && a.kind == 'm' {
+			vAssert(false, "Gen.wire.data-after-close")
+		}
+		if seenClose && a.kind == 'c' {
+			vAssert(false, "Gen.wire.second-close")
+		}
+		if a.kind == 'c' {
+			seenClose = true
 		}
 	}
 	if s.intruded {
